@@ -43,6 +43,8 @@ class LS_imm5_base(ThumbInstruction):
 
     def encode(self):
         assert self.imm5 % 4 == 0
+        if self.imm5 < 0:
+            raise ValueError(f"Cannot encode negative offset {self.imm5}")
         assert self.rn.num < 8
         assert self.rt.num < 8
         Rn = self.rn.num
